@@ -137,3 +137,110 @@ def pipe_dict(lst) -> dict:
 
 def pipe_list(d: dict) -> list:
     return [[k, v] for k, v in d.items()]
+
+
+@st.composite
+def matching_cost_cfg(draw, measures=("sad", "ssd", "census", "zncc"), windows=(1, 3, 3, 5), subpix=(1, 1, 2, 4)):
+    m = draw(st.sampled_from(list(measures)))
+    w = draw(st.sampled_from([3, 5])) if m == "census" else draw(st.sampled_from(list(windows)))
+    cfg = {"matching_cost_method": m, "window_size": w}
+    s = draw(st.sampled_from(list(subpix)))
+    if s != 1 or draw(st.booleans()):
+        cfg["subpix"] = s
+    return cfg
+
+
+@st.composite
+def filter_cfg(draw, kinds=("median", "bilateral")):
+    k = draw(st.sampled_from(list(kinds)))
+    if k == "median":
+        cfg = {"filter_method": "median"}
+        if draw(st.booleans()):
+            cfg["filter_size"] = draw(st.sampled_from([1, 3, 3, 5]))
+        return cfg
+    cfg = {"filter_method": "bilateral", "sigma_space": draw(st.sampled_from([0.4, 0.7, 1.0, 1.4])),
+           "sigma_color": draw(st.sampled_from([0.5, 2.0, 10.0]))}
+    return cfg
+
+
+@st.composite
+def legal_pipeline(draw, validation="maybe", fill=True, confidence=True, cbca=True, refinement=True, filters=True,
+                   max_post=4, measures=("sad", "ssd", "census", "zncc"), windows=(1, 3, 3, 5), subpix=(1, 1, 2, 4),
+                   invalid=(-9999, "NaN"), filter_kinds=("median", "bilateral"), repeat_validation=False):
+    """A legal single-scale pipeline as an ordered list [[name, cfg], ...]:
+    matching_cost, then cost-volume steps (confidence*, cbca), disparity, then disp_map steps in any order with
+    '.suffix' repetitions.  validation: True | False | 'maybe' | 'last' (exactly one, as last step)."""
+    steps = [["matching_cost", draw(matching_cost_cfg(measures, windows, subpix))]]
+    ncv = draw(st.integers(0, 2))
+    used_conf = 0
+    has_agg = False
+    for _ in range(ncv):
+        kind = draw(st.sampled_from((["conf"] if confidence else []) + (["cbca"] if cbca else []) + ["none"]))
+        if kind == "conf":
+            m = draw(st.sampled_from(["ambiguity", "risk", "interval_bounds", "std_intensity"]))
+            name = "cost_volume_confidence" + (f".c{used_conf}" if used_conf or draw(st.booleans()) else "")
+            used_conf += 1
+            steps.append([name, {"confidence_method": m}])
+        elif kind == "cbca" and not has_agg:
+            has_agg = True
+            cfg = {"aggregation_method": "cbca"}
+            if draw(st.booleans()):
+                cfg["cbca_distance"] = draw(st.sampled_from([1, 2, 3, 5]))
+                cfg["cbca_intensity"] = draw(st.sampled_from([1.0, 5.0, 30.0]))
+            steps.append(["aggregation", cfg])
+    dcfg = {"disparity_method": "wta"}
+    inv = draw(st.sampled_from(list(invalid)))
+    if inv != -9999 or draw(st.booleans()):
+        dcfg["invalid_disparity"] = inv
+    steps.append(["disparity", dcfg])
+    want_val = {"maybe": draw(st.booleans()), True: True, False: False, "last": False}[validation]
+    post = []
+    n = draw(st.integers(0, max_post))
+    counts = {"filter": 0, "refinement": 0, "validation": 0}
+    for _ in range(n):
+        opts = (["filter"] if filters else []) + (["refinement"] if refinement else [])
+        if want_val and (counts["validation"] == 0 or repeat_validation):
+            opts += ["validation", "validation"]
+        if not opts:
+            break
+        k = draw(st.sampled_from(opts))
+        name = k if counts[k] == 0 else f"{k}.{counts[k]}"
+        counts[k] += 1
+        if k == "filter":
+            post.append([name, draw(filter_cfg(filter_kinds))])
+        elif k == "refinement":
+            post.append([name, {"refinement_method": draw(st.sampled_from(["vfit", "quadratic"]))}])
+        else:
+            cfg = {"validation_method": "cross_checking_accurate"}
+            if draw(st.booleans()):
+                cfg["cross_checking_threshold"] = draw(st.sampled_from([0, 0.5, 1.0, 2]))
+            if fill and draw(st.integers(0, 2)) == 0:
+                cfg["interpolated_disparity"] = draw(st.sampled_from(["mc-cnn", "sgm"]))
+            post.append([name, cfg])
+    if want_val and counts["validation"] == 0:
+        cfg = {"validation_method": "cross_checking_accurate"}
+        if fill and draw(st.integers(0, 2)) == 0:
+            cfg["interpolated_disparity"] = draw(st.sampled_from(["mc-cnn", "sgm"]))
+        post.insert(draw(st.integers(0, len(post))), ["validation", cfg])
+    if validation == "last":
+        post.append(["validation", {"validation_method": "cross_checking_accurate"}])
+    return steps + post
+
+
+def pipeline_radius(steps) -> int:
+    """conservative dependency radius (rows) of a local pipeline: sum of all window / arm / filter radii"""
+    rad = 0
+    for name, cfg in steps:
+        kind = name.split(".")[0]
+        if kind == "matching_cost":
+            rad += cfg.get("window_size", 5) // 2
+        elif kind == "aggregation":
+            rad += cfg.get("cbca_distance", 5) + 1  # arms (< distance) + 3x3 median of the images
+        elif kind == "filter":
+            if cfg["filter_method"] == "median":
+                rad += cfg.get("filter_size", 3) // 2
+            elif cfg["filter_method"] == "bilateral":
+                rad += int(3 * cfg.get("sigma_space", 6.0) + 1) // 2 + 1
+        elif kind == "cost_volume_confidence":
+            rad += 0
+    return rad
